@@ -1,5 +1,7 @@
 package main
 
+import "sort"
+
 // Delta-debugging minimiser: shrink programs, values, fault plan, knobs and
 // the schedule while the same violation signature persists. Candidates run
 // with the schedule as hints; the schedule actually executed is written
@@ -141,7 +143,12 @@ func minimise(tr *Trace, p Prop, v Violation) (*Trace, Violation) {
 				progress = true
 			}
 		}
-		for k := range best.Closures {
+		var cks []string
+		for k := range best.Closures { // order-free: sorted below
+			cks = append(cks, k)
+		}
+		sort.Strings(cks)
+		for _, k := range cks {
 			c := best.clone()
 			delete(c.Closures, k)
 			if try(c) {
